@@ -132,9 +132,7 @@ Lemma format_d_roundtrip_all_lemma go sp z : parse_int (strip (fmt_signed go sp 
 Proof.
   unfold fmt_signed. destruct (d_prec sp) as [p|].
   - destruct ((p =? 0) && (Z.abs z =? 0)) eqn:E.
-    + assert (z = 0) as -> by lia. destruct go.
-      * unfold strip. rewrite drop_spaces_all. reflexivity.
-      * change (0 <? 0) with false. apply strip_sign_only.
+    + assert (z = 0) as -> by lia. change (0 <? 0) with false. apply strip_sign_only.
     + unfold zext. rewrite strip_pad_body. apply parse_signed_body.
   - unfold pad_num. destruct (f_zero sp && negb (f_minus sp) && true).
     + apply parse_signed_body.
